@@ -23,7 +23,7 @@ RULE = ('(a) for Hypothesis-drawn nodes and slices of module sources: cut, then 
         'documented), also k <= 4 times at different targets of the same tree; (b) replace a node by its own copy(), its own pure '
         'AST (copy_ast) and its own source text (own_src), with norm=True; oracle for (a)(b): ast.dump(ast.parse(after)) == '
         'ast.dump(ast.parse(before)) (structure) and the C01 invariant; (c) own_src() of every node, parsed through the CPython '
-        'embedding of the node kind (expressions inside "(\\n...\\n)"), has the structure of the node (contexts erased; docstring '
+        'embedding of the node kind (expressions inside "(\\n...\\n)"), has the structure of the node and every literal which option docstr does not allow to be re-indented (bytes, non-docstring positions) keeps its exact value, also through (a)(b) (contexts erased; docstring '
         're-indent normalised; f-string interior nodes are documented unparsable and skipped); (d) put_docstr(text) then get_docstr() '
         '== text and ast.get_docstring(parse, clean=False) dedents to text, for Hypothesis text (all planes, quotes, backslashes, '
         'control characters, triple quotes) whose first line does not start with whitespace; (e) put_line_comment(text) then '
@@ -86,6 +86,20 @@ def enumerate_cases(tier, shard, nshards, seed):
 
         for how in (('cutput',) if s2['op'] == 'cut' else ('copy', 'own_src')):
             yield {'kind': 'history', 'src': case['src'], 'tsel': s1['tsel'], 'text': s1['text'], 'asel': s2['tsel'], 'how': how, 'enumerated': True}
+
+
+    # multi-line strings / bytes in and out of docstring positions: own_src under every docstr value for every node; replace by own copy / source and cut + put back
+    for src in gen.DOCSTR_PROGRAMS + c07.NONSTR_MULTILINE_PROGRAMS:
+        n = len(em.node_targets(ast.parse(src)))
+
+        for ti in range(n):
+            for mode in (0, 1, 2):
+                if (ti * 3 + mode) % nshards == shard:
+                    yield {'kind': 'own_src', 'src': src, 'sels': [[ti, 0, 0, mode]], 'enumerated': True}
+                    yield {'kind': 'self', 'src': src, 'sels': [[ti, 0, 0, mode]], 'enumerated': True}
+
+            if ti % nshards == shard:
+                yield {'kind': 'cutput', 'src': src, 'sels': [[ti, 0, 0, 0]], 'enumerated': True}
 
 
 DANGLING_CONT = re.compile(r'\\\n[ \t]*(\n|$)')
@@ -322,6 +336,15 @@ def execute(case, ctx):
             if after_S != cur_S:
                 raise Violation('C08.structure', f'{desc}: structure changed by the round trip\n--- before ---\n{cur[:700]}\n--- after ---\n{after[:700]}', site)
 
+            da, db = c07.docstr_dump(ast.parse(after), True), c07.docstr_dump(ast.parse(cur), True)
+
+            if da != db and '\\\n' in cur and re.sub(r'(?: |\\t)+', '', da) == re.sub(r'(?: |\\t)+', '', db):
+                ctx.count('docstring_reindent_whitespace_tolerated')
+                da = db
+
+            if da != db:
+                raise Violation('C08.value', f'{desc}: a literal which is not a re-indentable string statement changed its value in the round trip\n--- before ---\n{cur[:700]}\n--- after ---\n{after[:700]}', site)
+
             invariant(root, desc, site)
             rich = rich or '#' in cur or '\n' in after[:0] or (kind == 'cutput' and '\n' in cur)
 
@@ -388,13 +411,29 @@ def execute(case, ctx):
 
             a, b = c07.norm_dump(ref), c07.norm_dump(node)
 
-            if a != b and re.sub(r'(?: |\\t)+', '', a) == re.sub(r'(?: |\\t)+', '', b) and ('"""' in text or "'''" in text):
+            if a != b and re.sub(r'(?: |\\t)+', '', a) == re.sub(r'(?: |\\t)+', '', b) and ('"""' in text or "'''" in text or '\\\n' in text):
+                ctx.count('docstring_reindent_whitespace_tolerated')  # as in C07: a backslash continuation inside a string statement, re-indentation reaches into the value
                 a = b
 
             if a != b:
                 from ..oracle import first_diff
 
                 raise Violation('C08.own_src_structure', f'{desc} parses to a different structure {first_diff(a, b)}', site)
+
+            # strings which option docstr does not allow to be re-indented (bytes, strings in non-docstring positions) keep their exact value
+            da, db = c07.docstr_dump(ref, docstr), c07.docstr_dump(node, docstr)
+
+            if isinstance(node, ast.Constant):
+                da = db  # the string itself: whether it is a (doc)string statement depends on where it is looked at from
+
+            if da != db and '\\\n' in text and re.sub(r'(?: |\\t)+', '', da) == re.sub(r'(?: |\\t)+', '', db):
+                ctx.count('docstring_reindent_whitespace_tolerated')
+                da = db
+
+            if da != db:
+                from ..oracle import first_diff
+
+                raise Violation('C08.own_src_value', f'{desc}: a literal which docstr={docstr!r} does not allow to be re-indented parses back to a different value {first_diff(da, db)}', site)
 
             n_checked += 1
             ctx.count('own_src_checked')
